@@ -214,7 +214,7 @@ impl Check for C08 {
     fn id(&self) -> &'static str { "C08" }
     fn level(&self) -> &'static str { "exploration" }
     fn rule(&self) -> String {
-        "for each multi-fragment response (Valve Source / GoldSrc / bzip2 splits of info, players, rules; GameSpy 1 parts; GameSpy 3 splitnum packets; Unreal 2 rules and players lists) with n = 2..6 fragments: every one of the n! arrival orders for n <= 5 (200 sampled at n = 6) must give a result equal to in-order arrival; every single-fragment duplication inserted at every position must give Err or the in-order result. Unreal 2 datagrams carry no index: compared exactly and as multisets so that a pure ordering difference is distinguished from loss/duplication. non-trivial = a (protocol, fragments, order) triple executed with the in-order result Ok; distinct by (fragments, order)".into()
+        "for each multi-fragment response (Valve Source / GoldSrc / bzip2 splits of info, players, rules; GameSpy 1 parts; GameSpy 3 splitnum packets; Unreal 2 rules and players lists) with n = 2..6 fragments: every one of the n! arrival orders for n <= 5 (200 sampled at n = 6) must give a result equal to in-order arrival; every single-fragment duplication inserted at every position of the in-order sequence, and of every reordered sequence for n <= 4 (150 sampled schedules above), must give Err or the in-order result. Unreal 2 datagrams carry no index: compared exactly and as multisets so that a pure ordering difference is distinguished from loss/duplication. non-trivial = a (protocol, fragments, order) triple executed with the in-order result Ok; distinct by (fragments, order)".into()
     }
     fn assumptions(&self) -> Vec<String> {
         vec![
@@ -277,6 +277,7 @@ impl Check for C08 {
                 })
                 .collect()
         };
+        let mut perm_results: std::collections::HashMap<Vec<usize>, R> = Default::default();
         for p in &sample_perms {
             if p.iter().enumerate().all(|(i, x)| i == *x) {
                 continue;
@@ -286,6 +287,7 @@ impl Check for C08 {
             cx.eval();
             count += 1;
             cx.nontrivial(fh ^ hash64(format!("{p:?}").as_bytes()));
+            perm_results.insert(p.clone(), r.clone());
             if r != base {
                 let first_is_last = p[0] == n - 1;
                 let what = match (&r, &multi, &base_multi) {
@@ -323,6 +325,53 @@ impl Check for C08 {
                 }
             }
         }
+        // duplications in reordered schedules: the n fragments in a non-trivial order with a copy of fragment i inserted
+        // at position pos (all of them for n <= 4, 150 sampled above)
+        let mut schedules: Vec<(Vec<usize>, usize, usize)> = Vec::new();
+        if n <= 4 {
+            for p in &sample_perms {
+                if p.iter().enumerate().all(|(i, x)| i == *x) {
+                    continue;
+                }
+                for i in 0 .. n {
+                    for pos in 0 ..= n {
+                        schedules.push((p.clone(), i, pos));
+                    }
+                }
+            }
+        } else {
+            for _ in 0 .. 150 {
+                let p = cx.rng.pick(&sample_perms).clone();
+                schedules.push((p, cx.rng.usize(0, n - 1), cx.rng.usize(0, n)));
+            }
+        }
+        let mut pdups = 0u64;
+        for (p, i, pos) in &schedules {
+            let mut order: Vec<Vec<u8>> = p.iter().map(|k| frags[*k].clone()).collect();
+            order.insert(*pos, frags[*i].clone());
+            let (r, multi) = (subj.run)(&order);
+            cx.eval();
+            pdups += 1;
+            cx.nontrivial(fh ^ hash64(format!("pdup {p:?} {i} {pos}").as_bytes()));
+            match &r {
+                R::Err(_) => {}
+                R::Ok(_) if r == base => {}
+                // the deviation of this arrival order without any copy was already judged in the permutation sweep;
+                // a copy that changes nothing about it is not a second deviation
+                R::Ok(_) if perm_results.get(p) == Some(&r) => {
+                    cx.count("duplicate-changes-nothing-about-a-reordered-result");
+                }
+                R::Ok(_) => {
+                    let what = match (&multi, &base_multi) {
+                        (Some(m), Some(b)) if m == b => "order-differs-only (multiset equal)",
+                        _ => "different-response-accepted",
+                    };
+                    cx.violation(format!("C08 {name} duplicate {what}"), || json!({"kind": name, "n": n, "arrival_order": p, "duplicated": i, "inserted_at": pos, "result": format!("{r:?}").chars().take(600).collect::<String>(), "in_order": format!("{base:?}").chars().take(600).collect::<String>()}));
+                }
+                R::Panic(m) => cx.violation(format!("C08 {name} duplicate panic"), || json!({"kind": name, "panic": m})),
+            }
+        }
+        cx.count_n(&format!("duplications-in-reordered-schedules|{name}"), pdups);
         cx.count_n(&format!("duplications|{name}"), dups);
         cx.sample(|| json!({"kind": name, "n": n, "permutations_run": count, "duplications_run": dups, "first_fragment": hex(&frags[0][.. frags[0].len().min(60)])}));
     }
@@ -335,7 +384,7 @@ impl Check for C08 {
         Ok(())
     }
     fn extra_coverage(&self, _tier: Tier, m: &Stats) -> Value {
-        let perms: std::collections::BTreeMap<&String, &u64> = m.counters.iter().filter(|(k, _)| k.starts_with("permutations|") || k.starts_with("duplications|")).collect();
+        let perms: std::collections::BTreeMap<&String, &u64> = m.counters.iter().filter(|(k, _)| k.starts_with("permutations|") || k.starts_with("duplications")).collect();
         json!({"executions_per_kind_and_n": perms})
     }
 }
